@@ -8,7 +8,7 @@ from . import common, tlc
 
 INV = {
     "C01": ["SentinelIffNoVariance", "KappaWellDefined", "KappaRangeOrK1"],
-    "C02": ["DeltaIsDefinition", "DeltaZeroShort"],
+    "C02": ["DeltaIsDefinition", "DeltaZeroShort", "LongChainFormSame"],
     "C03": ["FamilyIsArrangement", "DMaxSymmetric"],
     "C05": ["ReverseInvariant", "InvertInvariant", "DMaxSymmetric"],
     "C07": ["SCDZeroFewCharges", "ReverseInvariant", "InvertInvariant"],
@@ -106,9 +106,9 @@ def judge_traces(ctx, trs, need_sqrt=0, owns_k1=False):
 def composition_grid(rng, count):
     out = []
     while len(out) < count:
-        k = len(out) % 8
+        k = (0, 1, 2, 3, 4, 5, 6, 7, 0, 3, 0, 1)[len(out) % 12]
         if k == 0:                                   # no neutrals, lopsided: the short block slides through a long one
-            m = rng.randint(1, 8); M = rng.randint(m, min(110, 14 * m)); c = (m, M, 0)
+            m = rng.randint(1, 12); M = rng.randint(3 * m, min(120, 14 * m)); c = (m, M, 0)
         elif k == 1:                                 # no neutrals, any ratio
             m = rng.randint(1, 30); M = rng.randint(m, 100); c = (m, M, 0)
         elif k == 2:                                 # few neutrals (general regime), few minority charges
